@@ -20,19 +20,25 @@ ANY = "&impl ::core::any::Any"
 ATTR = {
     "doc": "/// d", "allow": "#[allow(unused)]", "inline": "#[inline]", "must": "#[must_use]", "cfgon": "#[cfg(all())]",
     "cfgoff": "#[cfg(any())]", "hid": "#[verif_helper::id]", "hcount": "#[verif_helper::count(KEY_SITE)]",
+    # a foreign attribute wrapped in an enabled cfg_attr is still a foreign attribute
+    "cahcount": "#[cfg_attr(all(), verif_helper::count(KEY_SITE))]",
 }
 SITES = {
     "fn": {"above": ["doc", "allow", "inline", "must", "cfgon", "hid", "hcount"],
-           "below": ["doc", "allow", "inline", "must", "cfgon", "cfgoff", "hid", "hcount"],
+           "below": ["doc", "allow", "inline", "must", "cfgon", "cfgoff", "hid", "hcount", "cahcount"],
            "param": ["allow", "cfgon"], "ptuple": ["allow", "cfgon"], "pwild": ["allow"]},
+    # a fn with a concrete dependency: its generated trait goes through a nested entrait invocation
+    "fnconc": {"above": ["doc", "allow", "inline", "must", "hid"],
+               "below": ["doc", "allow", "inline", "must", "cfgon", "hid", "hcount", "cahcount"],
+               "param": ["allow"]},
     "mod": {"modbelow": ["doc", "allow", "cfgon", "hid"],
-            "modfn": ["doc", "allow", "inline", "must", "cfgon", "cfgoff", "hid", "hcount"],
+            "modfn": ["doc", "allow", "inline", "must", "cfgon", "cfgoff", "hid", "hcount", "cahcount"],
             "param": ["allow", "cfgon"], "ptuple": ["allow"], "pwild": ["allow"]},
     "trait": {"traitbelow": ["doc", "allow", "must", "cfgon", "hid"],
               "method": ["doc", "allow", "must", "cfgon", "cfgoff", "hid", "hcount"],
               "param": ["allow", "cfgon"]},
     "impl": {"implbelow": ["doc", "allow", "cfgon", "hid"],
-             "implfn": ["doc", "allow", "inline", "must", "cfgon", "cfgoff", "hid", "hcount"],
+             "implfn": ["doc", "allow", "inline", "must", "cfgon", "cfgoff", "hid", "hcount", "cahcount"],
              "param": ["allow", "cfgon"], "ptuple": ["allow"], "pwild": ["allow"]},
 }
 
@@ -73,7 +79,7 @@ def has(s, site, a):
 
 
 def fn_disabled(s):
-    site = {"fn": "below", "mod": "modfn", "trait": "method", "impl": "implfn"}[s["mode"]]
+    site = {"fn": "below", "fnconc": "below", "mod": "modfn", "trait": "method", "impl": "implfn"}[s["mode"]]
     return has(s, site, "cfgoff")
 
 
@@ -87,7 +93,16 @@ def render(s):
     off = fn_disabled(s)
     ret = "Nonexistent" if off else "i64"
     body = "{ loop {} }" if off else "{ a }"
-    if mode == "fn":
+    if mode == "fnconc":
+        L.append("    pub struct Cfg;")
+        L += ["    " + a for a in attrs_at(s, "above")]
+        L.append("    #[::entrait::entrait(pub Tr)]")
+        L += ["    " + a for a in attrs_at(s, "below")]
+        L.append("    pub fn f(deps: &Cfg, %s %s) -> %s %s" % (pa, PAT[0], ret, body))
+        L.append("    #[::entrait::entrait(pub Tr2)]")
+        L.append("    pub fn other(deps: %s) -> i64 { 1 }" % ANY)
+        app = "::entrait::Impl::new(Cfg)"
+    elif mode == "fn":
         L += ["    " + a for a in attrs_at(s, "above")]
         L.append("    #[::entrait::entrait(pub Tr)]")
         L += ["    " + a for a in attrs_at(s, "below")]
@@ -151,7 +166,7 @@ def src_attr_norm(text):
 
 def model(s):
     mode = s["mode"]
-    site = {"fn": "below", "mod": "modfn", "trait": "method", "impl": "implfn"}[mode]
+    site = {"fn": "below", "fnconc": "below", "mod": "modfn", "trait": "method", "impl": "implfn"}[mode]
     fn_attrs = [src_attr_norm(a) for a in attrs_at(s, site)]
     if mode == "trait":
         method_attrs = sorted(fn_attrs)                      # everything mirrored
@@ -162,9 +177,9 @@ def model(s):
     compiles = True
     counts = {}
     for i, (st, a) in enumerate(s["word"]):
-        if a == "hcount":
+        if a in ("hcount", "cahcount"):
             tag = "%s_%s_%d" % (s["key"], st, i)
-            disabled = fn_disabled(s) and (st == site or mode == "fn")
+            disabled = fn_disabled(s) and (st == site or mode in ("fn", "fnconc"))
             # a cfg'd-off item is removed before (cfg above) or after (cfg below) the helper runs; only count enabled fns
             if disabled:
                 counts[tag] = None
@@ -179,6 +194,11 @@ def generated_items(view, s):
     if s["mode"] == "mod":
         items = [x for it in items if it["k"] == "mod" and it.get("items") for x in it["items"]]
     tname = "TrImpl" if s["mode"] == "impl" else "Tr"
+    if s["mode"] == "fnconc":
+        # the nested `#[::entrait::entrait(..)]` on the generated trait is macro-owned
+        for it in items:
+            if it["k"] == "trait" and it["ident"] == "Tr":
+                it["attrs"] = [a for a in it["attrs"] if a["path"].replace(" ", "") != "::entrait::entrait"]
     trait = next((it for it in items if it["k"] == "trait" and it["ident"] == "Tr"), None) if s["mode"] != "impl" else None
     impls = [it for it in items if it["k"] == "impl" and it.get("trait") and it["trait"].replace(" ", "").split("<")[0] == tname]
     return trait, impls
@@ -206,7 +226,8 @@ def evaluate(states, report, tier):
     reqs, keys = [], []
     for s in states:
         for r in results[s["key"]].records:
-            if "output_tt" in r and (r["attr"].strip() in ("pub Tr", "", "TrImpl, delegate_by = DelegateTr")) and not ("TrImpl" in r["attr"] and s["mode"] == "impl"):
+            if "output_tt" in r and (r["attr"].strip() in ("pub Tr", "", "TrImpl, delegate_by = DelegateTr")) and not ("TrImpl" in r["attr"] and s["mode"] == "impl") \
+                    and not (s["mode"] == "fnconc" and r["attr"].strip() != "pub Tr"):
                 reqs.append(dict(op="file", tt=r["output_tt"]))
                 keys.append(s["key"])
                 break
@@ -219,7 +240,7 @@ def evaluate(states, report, tier):
         if any("panic" in r for r in res.records):
             problems.append(("macro-panic", str([r.get("panic") for r in res.records])))
         v = views.get(s["key"])
-        if s["mode"] == "fn" and fn_disabled(s):
+        if s["mode"] in ("fn", "fnconc") and fn_disabled(s):
             # rustc strips a cfg'd-off item before the attribute macro ever runs: nothing is generated, nothing may dangle
             if v is not None:
                 problems.append(("expansion-of-disabled-item", ""))
